@@ -1,4 +1,90 @@
+/-
+C11 — property theorems (statements fixed by the architect; do not weaken).  PARTIAL: everything shapely
+computes is the parameter `mask`.  `Gen.Layout.rotSuffix` is GENERATED; it may be evaluated ONLY in
+`rot_suffix` (by `rfl`).
+Helper lemmas: PeroVerif/Lemmas/Assign.lean (may reuse PeroVerif/Lemmas/Decimal.lean).
+-/
 import PeroVerif.Model.Assign
+import PeroVerif.Lemmas.Decimal
+import PeroVerif.Lemmas.Assign
+
 namespace C11
-theorem placeholder : (1:Nat) = 1 := rfl
+open Asg Py
+variable {G : Type}
+
+/-- obligation on the generated flag -/
+theorem rot_suffix : Gen.Layout.rotSuffix = true := rfl
+
+/-- The id scheme `'{}-l{:03d}'.format(region_id, i+1)` is injective in (region id, line index). -/
+theorem lineId_injective (r r' : Str) (i i' : Nat) (h : lineId r i = lineId r' i') : r = r' ∧ i = i' :=
+  lineId_inj r r' i i' h
+
+/-- The bounding-box pre-filter never discards a line whose bounding box lies inside the region's
+bounding box, unless the line is a single point: a baseline wholly inside a region is always offered to
+the geometric test. -/
+theorem prefilter_sound (l r : BBox) (hin : r.xmin ≤ l.xmin ∧ l.xmax ≤ r.xmax ∧ r.ymin ≤ l.ymin ∧ l.ymax ≤ r.ymax)
+    (hwf : l.xmin ≤ l.xmax ∧ l.ymin ≤ l.ymax) (hnp : l.xmin < l.xmax ∨ l.ymin < l.ymax) :
+    candidate l r = true := by
+  have := hwf
+  unfold candidate
+  simp only [Bool.not_eq_true', Bool.and_eq_false_iff, Bool.or_eq_false_iff, decide_eq_false_iff_not]
+  omega
+
+/-- … and a line whose box is strictly separated from the region's box in both axes is never a candidate. -/
+theorem prefilter_rejects (l r : BBox) (hy : l.ymax ≤ r.ymin ∨ l.ymin ≥ r.ymax) (hx : l.xmax ≤ r.xmin ∨ l.xmin ≥ r.xmax) :
+    candidate l r = false := by
+  unfold candidate
+  simp only [Bool.not_eq_false', Bool.and_eq_true, Bool.or_eq_true, decide_eq_true_eq]
+  exact ⟨hy, hx⟩
+
+/-- What is stored in a region is exactly shapely's answer for the candidates, in detected-line order,
+with the id of (region, line) and the line's own heights; existing lines are kept in front. -/
+theorem assign_spec (mask : Nat → Nat → Option G) (lineBoxes : List BBox) (regs : List (Region G)) (ri : Nat)
+    (r : Region G) (hr : regs[ri]? = some r) :
+    ∃ r', (assign mask lineBoxes regs)[ri]? = some r' ∧ r'.id = r.id ∧ r'.bbox = r.bbox ∧
+      r'.lines = r.lines ++ (List.range lineBoxes.length).filterMap fun li =>
+        if candidate (lineBoxes.getD li ⟨0, 0, 0, 0⟩) r.bbox then (mask li ri).map fun g => ⟨lineId r.id li, g, li⟩ else none :=
+  assign_spec' mask lineBoxes regs ri r hr
+
+/-- A line shapely rejects (`mask = none`: it does not touch the region, or its piece is ≤ 2 px) is never placed. -/
+theorem never_if_mask_none (mask : Nat → Nat → Option G) (lineBoxes : List BBox) (regs : List (Region G)) (ri li : Nat)
+    (r : Region G) (hr : regs[ri]? = some r) (hm : mask li ri = none) (hold : ∀ p ∈ r.lines, p.id ≠ lineId r.id li) :
+    ∀ r', (assign mask lineBoxes regs)[ri]? = some r' → ∀ p ∈ r'.lines, p.id ≠ lineId r.id li := by
+  intro r' hr' p hp
+  obtain ⟨r'', h1, -, -, h4⟩ := assign_spec' mask lineBoxes regs ri r hr
+  rw [hr'] at h1
+  cases h1
+  rw [h4, List.mem_append] at hp
+  rcases hp with hp | hp
+  · exact hold p hp
+  · rw [List.mem_filterMap] at hp
+    obtain ⟨li', -, hp⟩ := hp
+    split at hp
+    · rw [Option.map_eq_some_iff] at hp
+      obtain ⟨g, hg, rfl⟩ := hp
+      intro he
+      have := (lineId_inj _ _ _ _ he).2
+      subst this
+      rw [hm] at hg
+      cases hg
+    · cases hp
+
+/-- All line ids produced by one assignment into empty regions with distinct ids are distinct. -/
+theorem ids_nodup_one_call (mask : Nat → Nat → Option G) (lineBoxes : List BBox) (regs : List (Region G))
+    (hid : (regs.map (·.id)).Nodup) (hempty : ∀ r ∈ regs, r.lines = []) :
+    (((assign mask lineBoxes regs).flatMap (·.lines)).map (·.id)).Nodup :=
+  ids_nodup mask lineBoxes regs hid hempty
+
+/-- The longest piece is kept (first maximum). -/
+theorem pickLongest_max (lens : List Nat) (k : Nat) (h : pickLongest lens = some k) :
+    ∃ hk : k < lens.length, (∀ j (hj : j < lens.length), lens[j] ≤ lens[k]) ∧ ∀ j (hj : j < k), lens[j]'(by omega) < lens[k] :=
+  pickLongest_spec lens k h
+
+/-- Across the orientation passes over the same given region the ids stay distinct (each pass places
+each detected line at most once; rotations are distinct). -/
+theorem pass_ids_nodup (rid : Str) (rots : List Nat) (placed : Nat → List Nat)
+    (hr : rots.Nodup) (hp : ∀ rot ∈ rots, (placed rot).Nodup) :
+    (passIds rid rots placed).Nodup :=
+  passIds_nodup rot_suffix rid rots placed hr hp
+
 end C11
